@@ -473,7 +473,26 @@ def _dropped_key():
                 yield ["seq", [["split", [["source", body, 0], ["tuple", [["data", "inc"]]]]]]]
 
 
+def _nested_then_later():
+    """A nested sequence that sets a nested key, followed in the enclosing sequence by a
+    SetContext under the same top-level key: the nested sequence keeps its own context."""
+    for inner_key, later_key in (("d.x", "d.y"), ("e.f.g", "e.f.h"), ("d.x", "d.x"), ("a", "b")):
+        for root in ("seq", "source", "fcseq", "split-branch"):
+            inner = ["seq", [["data", "inc"], ["set", inner_key, 1], ["store", "sI"]]]
+            body = [inner, ["store", "sM"], ["ucfs", "uM"], ["set", later_key, 2], ["store", "sE"]]
+            if root == "seq":
+                yield ["seq", body]
+            elif root == "source":
+                yield ["source", body, 0]
+            elif root == "fcseq":
+                yield ["fcseq", [["acc", "fc"]] + body]
+            else:
+                yield ["seq", [["set", "c", 0], ["split", [["seq", body], ["tuple", [["data", "inc"]]]]]]]
+
+
 def cases(tier, seed):
+    for tree in _nested_then_later():
+        yield {"k": "tree", "tree": tree, "flow": FLOW, "vseed": 6, "nv": NVARIANTS[tier]}
     for tree in _dropped_key():
         yield {"k": "tree", "tree": tree, "flow": FLOW, "vseed": 5, "nv": NVARIANTS[tier]}
     for tree in _subclass_values():
@@ -518,6 +537,7 @@ class Built(object):
         self.els = {}      # label -> consumer element
         self.sets = []     # SetContext elements
         self.root = None
+        self.nodes = {}    # path -> built Sequence / Source / Split / fill sequence
 
 
 def _flow(flow_r):
@@ -539,7 +559,14 @@ def _real_value(v):
     return copy.deepcopy(v)
 
 
-def _build_item(it, root_dir, flow_r, b):
+def _build_item(it, root_dir, flow_r, b, path=()):
+    made = _build_item_(it, root_dir, flow_r, b, path)
+    if it[0] in ("seq", "source", "split", "fcseq", "frseq"):
+        b.nodes[tuple(path)] = made
+    return made
+
+
+def _build_item_(it, root_dir, flow_r, b, path=()):
     import lena.core
     import lena.flow
     import lena.meta
@@ -567,7 +594,8 @@ def _build_item(it, root_dir, flow_r, b):
         return lena.core.FillRequest(lena.flow.StoreFilled(), bufsize=2, reset=True,
                                      buffer_input=True)
     elif k in ("seq", "tuple", "bare", "source", "fcseq", "frseq"):
-        items = [_build_item(ch, root_dir, flow_r, b) for ch in it[1]]
+        items = [_build_item(ch, root_dir, flow_r, b, tuple(path) + (ci,))
+                 for ci, ch in enumerate(it[1])]
         if k == "seq":
             return lena.core.Sequence(*items)
         if k == "fcseq":
@@ -582,7 +610,8 @@ def _build_item(it, root_dir, flow_r, b):
         return lena.core.Source(*(items[:pre] + [_flow(flow_r)] + items[pre:]))
     elif k == "split":
         kw = it[2] if len(it) > 2 else {}
-        return lena.core.Split([_build_item(br, root_dir, flow_r, b) for br in it[1]], **kw)
+        return lena.core.Split([_build_item(br, root_dir, flow_r, b, tuple(path) + (bi,))
+                                for bi, br in enumerate(it[1])], **kw)
     else:
         raise ValueError("unknown item %r" % (it,))
     b.els[it[1]] = el
@@ -950,6 +979,25 @@ def _case(r, obs, tmp):
               "sequence-context-differs:%s%s" % (tree[0], "+split" if has_split else ""),
               "_get_context() of the root = %r, fold gives %r" % (got_root, final), tree=tree)
 
+    # ---- (1c) every nested sequence / Split, asked for its context itself (it may be used at a
+    # second place, or printed): the fold up to its end, nothing a later element of an
+    # enclosing sequence set
+    for npath, nobj in sorted(A.nodes.items()):
+        if not npath or not hasattr(nobj, "_get_context"):
+            continue
+        exp_n = rec.get("#nodes", {}).get(npath)
+        if exp_n is None:
+            continue
+        try:
+            got_n = nobj._get_context()
+        except lena.core.LenaKeyError as e:
+            got_n = "LenaKeyError(%s)" % (e,)
+        obs.count("nested_sequence_contexts_checked")
+        kind_n = M.node_at(tree, list(npath))[0]
+        obs.check(got_n == exp_n, "nested-sequence-context-differs:" + kind_n,
+                  "the %s at path %r reports the static context %r, the fold up to its end gives "
+                  "%r" % (kind_n, list(npath), got_n, exp_n), tree=tree)
+
     # ---- (2b) identity walker: consumer vs SetContext elements
     naliased = 0
     set_ids = {}
@@ -1157,3 +1205,6 @@ RULE += (' Added: FillComputeSeq / FillRequestSeq nodes and tuple branches holdi
 RULE += (' Added: for trees with an unresolvable key, the elements that are not downstream of it '
          '(earlier ones, sibling branches) are still judged against the fold of their enclosing '
          'sequences; a family in which a Split drops a key that an earlier pass had set.')
+RULE += (' Every nested Sequence / Source / Split / fill sequence of a tree is also asked for its own '
+         'static context (the fold up to its end); a family of nested sequences followed by a '
+         'SetContext under the same top-level key.')
